@@ -636,6 +636,14 @@ theorem foldl_insertBreak_countActs (p : WActivity → Bool) (hp : JobPred p) (v
       simp only [countActs, List.map_cons, List.map_nil, List.sum_cons, List.sum_nil]
       omega
 
+theorem reservedStops_countActs (p : WActivity → Bool) (stops : List XStop) (rs : Int) (rtw : TW) :
+    countActs p (reservedStops stops rs rtw) = countActs p stops := by
+  unfold reservedStops
+  split
+  · rename_i i load _
+    exact insertAt_countActs p stops (i + 1) _ rfl
+  · rfl
+
 theorem insertReservedAt_countActs (p : WActivity → Bool) (hp : JobPred p) (v : Veh) (acts : List RAct) (shift : TW) (t : XTour)
     (rs : Int) (rtw : TW) (dur : Int) : countActs p (insertReservedAt v acts shift t rs rtw dur).stops = countActs p t.stops := by
   unfold insertReservedAt
@@ -643,11 +651,8 @@ theorem insertReservedAt_countActs (p : WActivity → Bool) (hp : JobPred p) (v 
   · rfl
   · simp only
     rw [foldl_insertBreak_countActs p hp]
-    simp only [countActs, List.map_nil, List.sum_nil, Nat.zero_add, List.zipIdx_map_fst]
-    split
-    · rename_i i load _
-      exact insertAt_countActs p t.stops (i + 1) _ rfl
-    · rfl
+    simp only [List.zipIdx_map_fst, reservedStops_countActs]
+    simp [countActs]
 
 theorem insertOneReserved_countActs (p : WActivity → Bool) (hp : JobPred p) (v : Veh) (acts : List RAct) (shift : TW) (t : XTour)
     (r : Reserved) : countActs p (insertOneReserved v acts shift t r).stops = countActs p t.stops := by
@@ -737,6 +742,60 @@ theorem insertBreak_split (v : Veh) (moved : Option (Nat × TW)) (rtw : TW) (ov 
         by_cases hb : bt = 0
         · simp [hm, hl, hleg, hb]
         · simp [hm, hl, hleg, hb]; omega
+
+/-- the adjustment `insert_break` makes for one stop (see `insertBreak_split`) -/
+def breakAdj (moved : Option (Nat × TW)) (ov bt : Int) (x : XStop × Nat) : Int :=
+  let movedHere := match moved with | some (leg, _) => leg == x.2 | none => false
+  match x.1.loc with
+  | some _ => if movedHere then bt else if bt == 0 then 0 else ov
+  | none => if movedHere then bt + bt else bt
+
+theorem foldl_insertBreak_split (v : Veh) (moved : Option (Nat × TW)) (rtw : TW) (ov bt : Int) (l : List (XStop × Nat))
+    (acc : List XStop × WStat) :
+    let res := l.foldl (fun (acc : List XStop × WStat) x =>
+        if twIntersectsX (x.1.arrival, x.1.departure) rtw then
+          let (s', st') := insertBreak v moved rtw ov bt x.2 x.1 acc.2
+          (acc.1 ++ [s'], st')
+        else (acc.1 ++ [x.1], acc.2)) acc
+    splitOf res.2 = splitOf acc.2
+        - ((l.filter (fun x => twIntersectsX (x.1.arrival, x.1.departure) rtw)).map (breakAdj moved ov bt)).sum
+      ∧ res.2.duration = acc.2.duration ∧ res.2.distance = acc.2.distance := by
+  induction l generalizing acc with
+  | nil => simp
+  | cons x r ih =>
+    simp only [List.foldl_cons]
+    by_cases hx : twIntersectsX (x.1.arrival, x.1.departure) rtw = true
+    · have h := insertBreak_split v moved rtw ov bt x.2 x.1 acc.2
+      have := ih ((acc.1 ++ [(insertBreak v moved rtw ov bt x.2 x.1 acc.2).1], (insertBreak v moved rtw ov bt x.2 x.1 acc.2).2))
+      simp only [hx, if_true, List.filter_cons, List.map_cons, List.sum_cons] at this ⊢
+      obtain ⟨t1, t2, t3⟩ := this
+      obtain ⟨h1, h2, h3⟩ := h
+      refine ⟨?_, by rw [t2, h2], by rw [t3, h3]⟩
+      rw [t1, h1]
+      simp only [breakAdj]
+      omega
+    · have := ih (acc.1 ++ [x.1], acc.2)
+      simp only [hx, Bool.false_eq_true, if_false, List.filter_cons] at this ⊢
+      exact this
+
+/-- **the accounting of one reserved time**: the timing entries grow by the break minus the adjustments of the stops it is
+    written into; duration and distance do not move. With one point stop (the usual case) that is `break - overlap with waiting`,
+    with a transit stop or a break moved in front of a leg it is nothing - the core had prolonged the travel already -/
+theorem insertReservedAt_split (v : Veh) (acts : List RAct) (shift : TW) (t : XTour) (rs : Int) (rtw : TW) (dur : Int)
+    (h : twIntersectsX shift rtw = true) :
+    splitOf (insertReservedAt v acts shift t rs rtw dur).stat = splitOf t.stat + dur
+        - (((reservedStops t.stops rs rtw).zipIdx.filter (fun x => twIntersectsX (x.1.arrival, x.1.departure) rtw)).map
+            (breakAdj (reservedMoved t.stops rs rtw) (waitingOverlap acts rtw dur) dur)).sum
+      ∧ (insertReservedAt v acts shift t rs rtw dur).stat.duration = t.stat.duration
+      ∧ (insertReservedAt v acts shift t rs rtw dur).stat.distance = t.stat.distance := by
+  unfold insertReservedAt
+  simp only [h, Bool.not_true, Bool.false_eq_true, if_false]
+  have := foldl_insertBreak_split v (reservedMoved t.stops rs rtw) rtw (waitingOverlap acts rtw dur) dur
+    (reservedStops t.stops rs rtw).zipIdx ([], t.stat)
+  obtain ⟨h1, h2, h3⟩ := this
+  refine ⟨?_, h2, h3⟩
+  simp only [splitOf] at h1 ⊢
+  omega
 
 theorem twOverlap_nonneg (a b : TW) (o : TW) (ha : a.1 ≤ a.2) (hb : b.1 ≤ b.2) (h : twOverlap a b = some o) : 0 ≤ o.2 - o.1 := by
   unfold twOverlap at h
